@@ -83,8 +83,10 @@ func listMsg(tag string, n int) *structpb.ListValue {
 	return lv
 }
 
-func optResp(shape string, i int) *structpb.ListValue { return listMsg(fmt.Sprintf("r%d", i), shapeLen(shape)) }
-func optReq(i int) *structpb.ListValue                 { return listMsg(fmt.Sprintf("q%d", i), 2) }
+func optResp(shape string, i int) *structpb.ListValue {
+	return listMsg(fmt.Sprintf("r%d", i), shapeLen(shape))
+}
+func optReq(i int) *structpb.ListValue { return listMsg(fmt.Sprintf("q%d", i), 2) }
 
 func respSize(shape string) int { return proto.Size(optResp(shape, 0)) }
 func reqSize() int              { return proto.Size(optReq(0)) }
@@ -409,8 +411,8 @@ func judgeOpt(r *optRun, obs optObs) verdict {
 	// what the handler hands over (deterministic in the case)
 	var want []*structpb.ListValue
 	n := r.pre
-	if respUnary(c.Kind) && r.err != nil {
-		n = 0 // a failing unary handler's response is not sent
+	if c.Kind == "unary" && r.err != nil {
+		n = 0 // a failing unary handler's response is not sent (a client-stream handler does send before it fails)
 	}
 	for i := 0; i < n; i++ {
 		want = append(want, optResp(o.Shape, i))
